@@ -1,0 +1,14 @@
+#pragma once
+
+// Verification probes (compiled to nothing unless EPHEMERALNET_VERIF is defined).
+// EPH_VERIF_ACCESS marks an access to a group of shared state; a verification harness
+// supplies ephemeralnet::verif::access() and records which locks the calling thread holds.
+
+#ifdef EPHEMERALNET_VERIF
+namespace ephemeralnet::verif {
+void access(const char* group, const char* site, bool write);
+}
+#define EPH_VERIF_ACCESS(group, site, write) ::ephemeralnet::verif::access((group), (site), (write))
+#else
+#define EPH_VERIF_ACCESS(group, site, write) ((void)0)
+#endif
